@@ -8,6 +8,7 @@ from . import shared_cxx as X
 
 def run(ctx, L, tier):
     P.f2_zero_fill(ctx, L)
+    P.slot_sizes(ctx, L)         # the unused tail of a limited array / bytes slot is the zero filler of ljust, nothing else
     P.f3_endianness(ctx, L)
     X.f5_lane_tables(ctx, L)
     X.f3_cxx(ctx, L)
